@@ -14,8 +14,10 @@ open Jl
 /-- Nothing in the regenerated facts is `unknown`. -/
 theorem row_facts_known : Gen.rowFacts.known = true := by decide
 
-/-- The facts read from row.go are the facts the model assumes. -/
-theorem row_facts_as_modelled : Gen.rowFacts = RowFactsSpec.expected := by decide
+/-- The facts read from row.go are the facts the model assumes — up to the two accepted alternative spellings
+    (`RowFacts.normalised`: MarshalJSON's separator before or after a member, MapTo's guard before or after the cast;
+    Proofs.RowTieMarshal and Proofs.RowTieGetters hold for either). -/
+theorem row_facts_as_modelled : Gen.rowFacts.normalised = RowFactsSpec.expected := by decide
 
 /-- No function of pkg/jsonline removes, moves or inserts a key anywhere but at the back, and none deletes a map
     entry: the key list is only read (`Front`, `Len`) or extended (`PushBack`) — what `LRow` can do. -/
